@@ -129,7 +129,7 @@ var _ = sym.Register("HC11_RingEndToEnd", HC11_RingEndToEnd)
 
 // HC11_RingEndToEnd: the same without the SignOfDet summary, triangle rings on a small grid.
 func HC11_RingEndToEnd() {
-	K := sym.Param("K", sym.Pick(1, 2))
+	K := sym.Param("K", 1)
 	sym.Bound("grid bits", K)
 	sym.Bound("vertices", 3)
 	ring := closedRing("r", 3, 2, K)
